@@ -51,7 +51,7 @@ def main():
     try:
         for p in props:
             env = dict(os.environ, VERIF_REPO=wt, VERIF_BUILD=broot, VERIF_EVIDENCE=os.path.join(broot, "evidence"),
-                       VERIF_MEM_GB=os.environ.get("VERIF_MEM_GB", "20"))
+                       VERIF_MEM_GB=os.environ.get("VERIF_MEM_GB", "20"), VERIF_FIRST_VIOLATION="1")
             cmd = [os.path.join(VERIF, "check"), p, "--tier", tier, "--jobs", jobs]
             if only:
                 cmd += ["--only", only]
